@@ -262,6 +262,39 @@ Global Hint Rewrite fs_next fs_cont fs_err fs_ps_cont fs_dirty fs_cur_pk fs_prev
 Global Hint Rewrite curIs_fs peekIs_fs pty_peek_other cur_type_other prev_type_other ft_type_other
   using (first [assumption | tokneq]) : fsdb.
 
+(* the parameter list of parseLambdaMulti *)
+Definition lam_params (left : option node) (more : option (list (option node))) : option (list (option node)) :=
+  match left with
+  | None => match more with Some [] => None | m => m end
+  | Some _ => Some (left :: match more with Some m => m | None => [] end)
+  end.
+Definition unopt (o : option (list (option node))) : list (option node) := match o with Some l => l | None => [] end.
+Lemma lam_params_f left more : lam_params (fo left) (fol more) = fol (lam_params left more).
+Proof. destruct left, more as [[|]|]; reflexivity. Qed.
+Lemma unopt_f o : unopt (fol o) = fl (unopt o).
+Proof. destruct o; reflexivity. Qed.
+Lemma parseLambdaMulti_S' conv f left more s :
+  parseLambdaMulti conv (S f) left more s =
+    match okParamList (unopt (lam_params left more)) with
+    | None => ROk None (add_err ELambdaParam s)
+    | Some dd =>
+      if peekIs s token_LBRACE then
+        dob (b, s2) <- parseBlockStatement conv f (nextToken s);
+        if ps_cont s2 then ROk None s2
+        else ROk (Some (NFunc (pk (ps_cur s)) None (lam_params left more) b
+                             (match dd with Some _ => true | None => false end) true)) s2
+      else
+        dob (body, s2) <- parseExpression conv f (curPrecedence s) (nextToken s);
+        ROk (Some (NFunc (pk (ps_cur s)) None (lam_params left more) (Some (NStmts [body]))
+                         (match dd with Some _ => true | None => false end) true)) s2
+    end.
+Proof. reflexivity. Qed.
+
+Local Opaque lam_params unopt curPrecedence peekPrecedence precedence_of table_get prefix_fns infix_fns postfix_fns precedences curIs peekIs
+  parseExpression exprLoop prefixFn infixFn parseLambdaMulti parseGroupedExpression parseIfExpression parseBlockStatement
+  blockLoop parseStatement parseExpressionList exprListLoop parseMapLoop parseIdentifier parseIntegerLiteral parseFloatLiteral
+  parseComment parseFunctionParameters expectPeek okParamList is_infix_colon nextToken set_cont add_err fs ft fp dirty.
+
 Section Main.
 Variable conv : numconv.
 Notation pe := (parseExpression conv).
@@ -326,10 +359,16 @@ Ltac facts HE HL HP HI HM HG HIf HB HBL HS HEL HELL HML :=
   | E : parseBlockStatement conv _ _ = ROk _ _ |- _ => apply HB in E; destruct E as [? ?]
   | E : blockLoop conv _ _ _ = ROk _ _ |- _ => apply HBL in E; destruct E as [? ?]
   | E : parseStatement conv _ _ = ROk _ _ |- _ => apply HS in E; destruct E as [? ?]
-  | E : parseExpressionList conv _ _ _ = ROk _ _ |- _ =>
-      apply HEL in E; [destruct E as [? ?]|first [assumption|tokneq]|first [assumption|tokneq]]
-  | E : exprListLoop conv _ _ _ _ = ROk _ _ |- _ =>
-      apply HELL in E; [destruct E as [? ?]|first [assumption|tokneq]|first [assumption|tokneq]]
+  | E : parseExpressionList conv _ ?endt _ = ROk _ _ |- _ =>
+      let N1 := fresh in let N2 := fresh in
+      assert (N1 : endt <> token_EOL) by (first [assumption|tokneq]);
+      assert (N2 : endt <> token_EOF) by (first [assumption|tokneq]);
+      destruct (HEL _ _ _ _ E N1 N2) as [? ?]; clear E; try clear N1 N2
+  | E : exprListLoop conv _ ?endt _ _ = ROk _ _ |- _ =>
+      let N1 := fresh in let N2 := fresh in
+      assert (N1 : endt <> token_EOL) by (first [assumption|tokneq]);
+      assert (N2 : endt <> token_EOF) by (first [assumption|tokneq]);
+      destruct (HELL _ _ _ _ _ E N1 N2) as [? ?]; clear E; try clear N1 N2
   | E : parseMapLoop conv _ _ _ _ = ROk _ _ |- _ => apply HML in E; destruct E as [? ?]
   | E : parseIdentifier _ = ROk _ _ |- _ => pose proof (le_ident _ _ _ E); apply sim_ident in E
   | E : parseIntegerLiteral conv _ = ROk _ _ |- _ =>
@@ -344,7 +383,7 @@ Ltac facts HE HL HP HI HM HG HIf HB HBL HS HEL HELL HML :=
       pose proof (le_expectPeek _ _ _ _ E);
       pose proof (sim_expectPeek s t _ _ ltac:(first [assumption|tokneq]) ltac:(first [assumption|tokneq]) E);
       pose proof (expectPeek_spec _ _ _ _ E); clear E
-  end; cbn [fst snd option_map] in *.
+  end; cbn [fst snd option_map] in *; unfold fpairs in *; rewrite ?map_app in *; cbn [map fst snd] in *.
 
 Ltac norm_le :=
   repeat match goal with
@@ -384,7 +423,40 @@ Ltac rew_ctx :=
       | _ => tryif is_var c then fail else rewrite Hq
       end
   end.
-Ltac run := repeat (first [progress autorewrite with fsdb | rew_ctx | progress cbv beta iota zeta | progress cbn [option_map fst snd]]).
+(* push the renaming outwards, by syntactic matching only (unification against the generated tables is expensive) *)
+Ltac sidec := first [assumption | tokneq].
+Ltac push1 :=
+  match goal with
+  | |- context [nextToken (fs ?s)] => rewrite (fs_next s)
+  | |- context [set_cont (fs ?s)] => rewrite (fs_cont s)
+  | |- context [add_err ?e (fs ?s)] => rewrite (fs_err e s)
+  | |- context [ps_cont (fs ?s)] => rewrite (fs_ps_cont s)
+  | |- context [tlit (pk (ps_cur (fs ?s)))] => rewrite (cur_lit_fs s)
+  | |- context [pk (ps_cur (fs ?s))] => rewrite (fs_cur_pk s)
+  | |- context [ps_prev (fs ?s)] => rewrite (fs_prev s)
+  | |- context [pk_ws (ps_peek (fs ?s))] => rewrite (fs_peek_ws s)
+  | |- context [pk_nl (ps_peek (fs ?s))] => rewrite (fs_peek_nl s)
+  | |- context [pk_nl (ps_cur (fs ?s))] => rewrite (fs_cur_nl s)
+  | |- context [curIs (fs ?s) token_EOL] => rewrite (curIs_fs_eol s)
+  | |- context [peekIs (fs ?s) token_EOL] => rewrite (peekIs_fs_eol s)
+  | |- context [curIs (fs ?s) token_EOF] => rewrite (curIs_fs_eof s)
+  | |- context [peekIs (fs ?s) token_EOF] => rewrite (peekIs_fs_eof s)
+  | |- context [curIs (fs ?s) ?x] => rewrite (curIs_fs s x) by sidec
+  | |- context [peekIs (fs ?s) ?x] => rewrite (peekIs_fs s x) by sidec
+  | |- context [table_get prefix_fns (pty (ps_cur (fs ?s)))] => rewrite (tbl_prefix_cur s)
+  | |- context [table_get infix_fns (pty (ps_peek (fs ?s)))] => rewrite (tbl_infix_peek s)
+  | |- context [table_get postfix_fns (pty (ps_peek (fs ?s)))] => rewrite (tbl_postfix_peek s)
+  | |- context [peekPrecedence (fs ?s)] => rewrite (peekPrec_fs s)
+  | |- context [curPrecedence (fs ?s)] => rewrite (curPrec_fs s)
+  | |- context [pty (ps_peek (fs ?s)) =? ?x] => rewrite (pty_peek_other s x) by sidec
+  | |- context [ttype (ft ?t) =? ?x] => rewrite (ft_type_other t x) by sidec
+  | |- context [tlit (ft ?t)] => rewrite (ft_lit t)
+  | |- context [is_infix_colon (fo ?kv)] => rewrite (is_infix_colon_fo kv)
+  | |- context [okParamList (fl ?l)] => rewrite (okParamList_fl l)
+  | |- context [?b || false] => rewrite (orb_false_r b)
+  | |- context [?b && false] => rewrite (andb_false_r b)
+  end.
+Ltac run := repeat (first [progress (repeat push1) | rew_ctx | progress cbv beta iota zeta | progress cbn [option_map fst snd]]).
 
 Ltac use_all H :=
   destruct H as (HE & HL & HP & HI & HM & HG & HIf & HB & HBL & HS & HEL & HELL & HML).
@@ -408,4 +480,59 @@ Ltac step eqn :=
   end;
   (split; [solve_le | (let Hc := fresh "Hc" in intros Hc); cleans; rewrite eqn; run; try reflexivity]).
 
+
+Lemma SL_step f : SAll f -> SL (S f).  Proof. unfold SL. step exprLoop_S. Qed.
+Lemma SI_step f : SAll f -> SI (S f).  Proof. unfold SI. step infixFn_S. Qed.
+Lemma SG_step f : SAll f -> SG (S f).  Proof. unfold SG. step parseGroupedExpression_S. Qed.
+Lemma SIf_step f : SAll f -> SIf (S f). Proof. unfold SIf. step parseIfExpression_S. Qed.
+Lemma SB_step f : SAll f -> SB (S f).  Proof. unfold SB. step parseBlockStatement_S. Qed.
+Lemma SEL_step f : SAll f -> SEL (S f). Proof. unfold SEL. step parseExpressionList_S. Qed.
+Lemma SELL_step f : SAll f -> SELL (S f). Proof. unfold SELL. step exprListLoop_S. Qed.
+Lemma SML_step f : SAll f -> SML (S f). Proof. unfold SML. step parseMapLoop_S. Qed.
+
+(* the tail of a step once the line-mode run has been walked *)
+Ltac finish :=
+  match goal with
+  | HE : SE _, HL : SL _, HP : SP _, HI : SI _, HM : SM _, HG : SG _, HIf : SIf _, HB : SB _, HBL : SBL _,
+    HS : SS _, HEL : SEL _, HELL : SELL _, HML : SML _ |- _ =>
+    facts HE HL HP HI HM HG HIf HB HBL HS HEL HELL HML
+  end;
+  (split; [solve_le | (let Hc := fresh "Hc" in intros Hc); cleans; run; try reflexivity]).
+
+Lemma SBL_step f : SAll f -> SBL (S f).
+Proof.
+  unfold SBL. intros IH; use_all IH; intros acc s x s1 H.
+  rewrite blockLoop_S in H |- *. repeat push1.
+  destruct (curIs s token_RBRACE), (curIs s token_EOF), (curIs s token_EOL); cbn [orb] in *; dec; finish.
+Qed.
+
+Lemma SS_step f : SAll f -> SS (S f).
+Proof.
+  unfold SS. intros IH; use_all IH; intros s x s1 H.
+  rewrite parseStatement_S in H |- *. repeat push1. rewrite <- ?orb_assoc in *.
+  dec;
+    repeat match goal with
+    | |- context [if peekIs ?s0 token_SEMICOLON then nextToken ?s0 else ?s0] => destruct (peekIs s0 token_SEMICOLON) eqn:?
+    end; finish.
+Qed.
+
+Lemma SM_step f : SAll f -> SM (S f).
+Proof.
+  unfold SM. intros IH; use_all IH; intros left more s x s1 H.
+  rewrite parseLambdaMulti_S' in H |- *. rewrite lam_params_f, unopt_f, okParamList_fl.
+  destruct (okParamList (unopt (lam_params left more))) as [dd|]; cbn [option_map].
+  - destruct dd; cbn [option_map]; dec; finish.
+  - dec; finish.
+Qed.
+
+Lemma SP_step f : SAll f -> SP (S f).
+Proof.
+  unfold SP. intros IH; use_all IH; intros fn s x s1 H.
+  rewrite prefixFn_S in H |- *.
+  repeat match goal with
+  | H : (if String.eqb fn ?c then _ else _) = ROk _ _ |- _ =>
+      destruct (String.eqb fn c); [solve [dec; finish]|]
+  end.
+  discriminate H.
+Qed.
 End Main.
